@@ -1,8 +1,9 @@
 /* E-libc: contract model of snprintf (CBMC's built-in model writes nothing).
  * Writes at most `size` bytes, NUL-terminates iff size >= 1, returns the
- * untruncated length. For the format "%s" the argument string is copied; any
+ * untruncated length. For the formats "%s" and "%.4s" the argument string is copied; any
  * other format yields nondet printable bytes of nondet length < SNP_MAX.
  * Loops are bounded by SNP_MAX (harness bound on the produced text). */
+#if defined (__CPROVER__) || defined (VERIF_CBMC)	/* native replay uses the real function */
 #include <stdarg.h>
 #include <stddef.h>
 #include "verif.h"
@@ -15,12 +16,17 @@ snprintf (char *str, size_t size, const char *fmt, ...)
 	size_t n = 0, i ;
 	const char *src = NULL ;
 	va_start (ap, fmt) ;
+	size_t prec = SNP_MAX ;
 	if (fmt [0] == '%' && fmt [1] == 's' && fmt [2] == 0)
 		src = va_arg (ap, const char *) ;
+	else if (fmt [0] == '%' && fmt [1] == '.' && fmt [2] == '4' && fmt [3] == 's' && fmt [4] == 0)
+	{	src = va_arg (ap, const char *) ;
+		prec = 4 ;
+		} ;
 	va_end (ap) ;
 	if (src != NULL)
 	{	for (n = 0 ; n < SNP_MAX ; n++)
-			if (src [n] == 0)
+			if (n >= prec || src [n] == 0)
 				break ;
 		VASSERT (n < SNP_MAX, "snprintf model: source text shorter than SNP_MAX (harness bound)") ;
 		}
@@ -39,3 +45,4 @@ snprintf (char *str, size_t size, const char *fmt, ...)
 		} ;
 	return (int) n ;
 }
+#endif
